@@ -301,7 +301,7 @@ func (o KeepAliveOpt[C]) toTCPCreateInactivityMonitor(onInactive TCPOnInactive) 
 		keepalive := inactivity.NewKeepAlive(o.maxRetries, onInactive, func(cc *tcpClient.Conn, receivePong func()) (func(), error) {
 			return cc.AsyncPing(receivePong)
 		})
-		return inactivity.New(o.timeout/time.Duration(o.maxRetries+1), keepalive.OnInactive)
+		return keepalive.NewMonitor(o.timeout / time.Duration(o.maxRetries+1))
 	}
 }
 
@@ -310,7 +310,7 @@ func (o KeepAliveOpt[C]) toUDPCreateInactivityMonitor(onInactive UDPOnInactive) 
 		keepalive := inactivity.NewKeepAlive(o.maxRetries, onInactive, func(cc *udpClient.Conn, receivePong func()) (func(), error) {
 			return cc.AsyncPing(receivePong)
 		})
-		return inactivity.New(o.timeout/time.Duration(o.maxRetries+1), keepalive.OnInactive)
+		return keepalive.NewMonitor(o.timeout / time.Duration(o.maxRetries+1))
 	}
 }
 
